@@ -100,6 +100,13 @@ def _classes():
     return _CLS
 
 
+class _Emitter:
+    """stand-in for the emitter argument of reset / rank (the stock rankers do not look at it)"""
+
+
+EMITTERS = [None, _Emitter(), _Emitter()]
+
+
 class Spy:
     """transparent proxy recording which attributes of the archive a ranker touches"""
 
@@ -256,6 +263,7 @@ def run_case(case, driver, stats=None, trace=None):
     ranker = getattr(R, case["cls"])(seed_obj)
     archive, real = build_archive(case["archive"])
     emitter = None
+    step_no = [0]
     problems = []
     mops, post = [], []   # model ops; per model op a function (model_out) -> None | problem dict
     stream = []
@@ -277,6 +285,7 @@ def run_case(case, driver, stats=None, trace=None):
             trace.append(dict(op=k, **kw))
 
     for k, op in enumerate(case["ops"]):
+        step_no[0] = k
         before_arch = snap_archive(real)
         dir_before = None if get_dir() is None else snap_value(copy.deepcopy(get_dir()))
         if op["op"] == "grow":
@@ -292,7 +301,8 @@ def run_case(case, driver, stats=None, trace=None):
         if op["op"] == "reset":
             err = None
             try:
-                ranker.reset(emitter, archive)
+                # one ranker may serve several emitters: whichever emitter is named, the ranker has ONE current direction
+                ranker.reset(EMITTERS[(step_no[0] * 7 + 1) % 3], archive)
             except Exception as e:  # noqa
                 err = err_code(e)
             if snap_archive(real) != before_arch:
@@ -393,7 +403,7 @@ def run_case(case, driver, stats=None, trace=None):
             dir_at_call = copy.deepcopy(get_dir())
             err, res = None, None
             try:
-                res = ranker.rank(emitter, archive, data, info)
+                res = ranker.rank(EMITTERS[(step_no[0] * 5 + 2) % 3], archive, data, info)
             except Exception as e:  # noqa
                 err = err_code(e)
                 err_repr = repr(e)
